@@ -78,6 +78,10 @@ struct Hooks
     std::function<int(int inst)> st_stop; // state
     std::function<void(int inst, const struct ImageShape*)> st_reserve;
     std::function<int(int drv)> shutdown; // status
+    // a failing open() leaves the address of a half-built device it has
+    // already released in *out (legal: the value of *out after a failed open
+    // means nothing)
+    bool failed_open_leaves_stale_handle = false;
     // called at the entry of every mock call (yield point etc.)
     std::function<void(const char* call, int inst)> enter;
     // called when a mock call is about to return
